@@ -543,6 +543,13 @@ func (r *reporter) reportCopyMetric(
 	bucket string,
 	bucketID string,
 ) {
+	// n.b. Once Close has begun, leave without touching the pending count:
+	//      Close waits for it to drop to zero, and callers that keep reporting
+	//      must not be able to hold it up indefinitely.
+	if r.done.Load() {
+		return
+	}
+
 	r.pending.Inc()
 	defer r.pending.Dec()
 
@@ -568,6 +575,10 @@ func (r *reporter) reportCopyMetric(
 
 // Flush sends an empty sizedMetric to signal a flush.
 func (r *reporter) Flush() {
+	if r.done.Load() {
+		return
+	}
+
 	r.pending.Inc()
 	defer r.pending.Dec()
 
